@@ -1091,8 +1091,19 @@ class TypeMeetVisitor(TypeVisitor[ProperType]):
             items = self.meet_tuples(self.s, t)
             if items is None:
                 return self.default(self.s)
-            # TODO: What if the fallbacks are different?
-            return TupleType(items, tuple_fallback(t))
+            s_fallback = tuple_fallback(self.s)
+            t_fallback = tuple_fallback(t)
+            if s_fallback.type is not t_fallback.type or (
+                s_fallback.type.fullname != "builtins.tuple" and s_fallback != t_fallback
+            ):
+                # Named tuples and other tuple subclasses: the meet must be nominally compatible
+                # with both sides, so use the more derived fallback (if there is one).
+                if is_subtype(t_fallback, s_fallback):
+                    return TupleType(items, t_fallback)
+                if is_subtype(s_fallback, t_fallback):
+                    return TupleType(items, s_fallback)
+                return self.default(self.s)
+            return TupleType(items, t_fallback)
         elif isinstance(self.s, Instance):
             # meet(Tuple[t1, t2, <...>], Tuple[s, ...]) == Tuple[meet(t1, s), meet(t2, s), <...>].
             if self.s.type.fullname in TUPLE_LIKE_INSTANCE_NAMES and self.s.args:
